@@ -41,6 +41,7 @@ def run(rep, tier):
     typestate(rep, F)
     cached_fields(rep, F)
     candidate_pairs(rep, F)
+    cow_dimensions(rep, F)
     # the plain operand and its prepared form go through one and the same pipeline only if no operand type overrides relate() and every
     # plain operand's graph is GeometryGraph::new(idx, GeometryCow::from(self)) - what prepare_geometry builds too (rule shared with C01)
     from . import c01
@@ -361,3 +362,43 @@ def candidate_pairs(rep, F, rule="R17.4"):
             rep.bad(rule, key + ":floor", "only %d add_intersections calls seen" % n_calls, where=fn.loc())
         else:
             rep.ok(rule, "%s[%d paths, %d calls]" % (key, len(paths), n_calls))
+
+
+def cow_dimensions(rep, F, rule="R17.6"):
+    """PreparedGeometry answers is_empty / dimensions / boundary_dimensions through the GeometryCow it caches (the plain operand answers with
+    its own impl): for every variant each of the three is exactly the wrapped geometry's own method - the disjoint-envelope shortcut of relate
+    writes these values into the matrix, so a prepared ring with a 0-dimensional 'boundary' gives another matrix than the plain ring."""
+    from ..symex import bare
+    rep.rule(rule, "GeometryCow (what a PreparedGeometry answers HasDimensions with): for every variant is_empty / dimensions / boundary_dimensions return the wrapped geometry's own is_empty / dimensions / boundary_dimensions, unconditionally")
+    COW = "geo::geometry_cow::GeometryCow"
+    HD = "geo::algorithm::dimensions::HasDimensions"
+    try:
+        variants = [v["name"] for v in F.adts[COW]["variants"]]
+    except KeyError:
+        rep.bad(rule, "cow:anchor", "GeometryCow not found")
+        return
+    n = 0
+    for meth in ("is_empty", "dimensions", "boundary_dimensions"):
+        try:
+            fn = F.impl_method(HD, r"geometry_cow::GeometryCow<'_, C>$", None, meth, crates=("geo",))
+        except KeyError as e:
+            rep.bad(rule, "cow:%s:anchor" % meth, str(e))
+            continue
+        for v in variants:
+            arg = ("&", ("adt", COW, v, (("opaque", "inner"),)))
+            try:
+                ps = [p for p in opaque(F, max_paths=500).run(fn, args=[arg]) if p.kind != "cut"]
+            except Unanalysable as e:
+                rep.bad(rule, "cow:%s:%s:unanalysable" % (meth, v), str(e), where=fn.loc())
+                continue
+            ok = len(ps) == 1 and ps[0].kind == "ret" and not ps[0].pc
+            r = bare(ps[0].ret) if ps else ""
+            if ok:
+                m = re.match(r"^(\w+)\((.*)\)$", r)
+                ok = bool(m) and m.group(1) == meth and "opaque(inner)" in m.group(2) and not re.search(r"\b(dimensions|boundary_dimensions|is_empty|boundary)\(", m.group(2))
+            if ok:
+                n += 1
+                rep.ok(rule, "cow:%s:%s" % (meth, v))
+            else:
+                rep.bad(rule, "cow:%s:%s" % (meth, v), "GeometryCow::%s.%s() is %s on %d path(s): not the wrapped geometry's own %s" % (v, meth, r[:120], len(ps), meth), where=fn.loc())
+    rep.floor(rule, "GeometryCow delegations", n, 30)
